@@ -119,6 +119,36 @@ class CUnit:
         return [f"{c.props.get('type')} {c.props.get('name')}" for c in r.children if c.kind == "FieldDecl"] if r else []
 
 
+def expand_calls(unit: "CUnit", n: CNode, depth: int = 3) -> CNode:
+    """
+    Copy of expression n in which calls of functions of this unit whose body is a single `return <expr>;` are replaced by that
+    expression with the parameters substituted by the (expanded) arguments.  Pure expression helpers only.
+    """
+    def subst(e: CNode, env: Dict[str, CNode]) -> CNode:
+        if e.kind == "DeclRefExpr" and e.props.get("ref") in env:
+            return env[e.props["ref"]]
+        return CNode(e.kind, dict(e.props), [subst(c, env) for c in e.children], e.line)
+
+    def go(e: CNode, d: int) -> CNode:
+        kids = [go(c, d) for c in e.children]
+        if e.kind == "CallExpr" and d > 0 and kids:
+            callee = strip(kids[0])
+            name = callee.props.get("ref") if callee.kind == "DeclRefExpr" else None
+            fn = unit.functions.get(name) if name else None
+            if fn is not None:
+                body = [c for c in fn.children if c.kind == "CompoundStmt"][0]
+                stmts = [c for c in body.children if c.kind != "NullStmt"]
+                params = [c.props.get("name", "") for c in fn.children if c.kind == "ParmVarDecl"]
+                if len(stmts) == 1 and stmts[0].kind == "ReturnStmt" and stmts[0].children and len(params) == len(kids) - 1:
+                    env = dict(zip(params, kids[1:]))
+                    inner = subst(stmts[0].children[0], env)
+                    out = go(inner, d - 1)
+                    out = CNode("ParenExpr", {}, [out], e.line)
+                    return out
+        return CNode(e.kind, dict(e.props), kids, e.line)
+    return go(n, depth)
+
+
 def strip(n: CNode) -> CNode:
     """Remove implicit casts / parentheses."""
     while n.kind in ("ImplicitCastExpr", "ParenExpr", "CStyleCastExpr") and n.children:
